@@ -10,7 +10,8 @@ def parseBackend (s : String) : Except String Backend :=
   | "b2" => pure .b2
   | _ => throw s!"unknown backend {s}"
 
-def parseFault (j : Json) : Except String Fault := do
+/-- `{"kind": …, "errno": k}`: the (local) fault surfaces as an OSError of class `k`; without the field: the default class (EIO) -/
+def parseFaultBase (j : Json) : Except String Fault := do
   let k ← getStr j "kind"
   match k with
   | "pre" => pure .pre
@@ -24,6 +25,20 @@ def parseFault (j : Json) : Except String Fault := do
   | "lost" => pure .lost
   | "rename" => pure .rename
   | _ => throw s!"unknown fault kind {k}"
+
+def parseFault (j : Json) : Except String Fault := do
+  let f ← parseFaultBase j
+  match j.getObjVal? "errno" with
+  | .ok Json.null => pure f
+  | .ok v => do pure (.errno (← v.getNat?) f)
+  | .error _ => pure f
+
+def natListField (j : Json) (k : String) (dflt : List Nat) : Except String (List Nat) :=
+  match j.getObjVal? k with
+  | .error _ => pure dflt
+  | .ok v => do
+    let a ← v.getArr?
+    a.toList.mapM (·.getNat?)
 
 /-- optional field: absent = keep, `null` = none, number = some -/
 def optNatField (j : Json) (k : String) (dflt : Option Nat) : Except String (Option Nat) :=
@@ -48,16 +63,22 @@ def parseCfg (base : Cfg) (j : Json) : Except String Cfg :=
       downRewind := ← optNatField o "downRewind" base.downRewind
       digestRewind := ← optNatField o "digestRewind" base.digestRewind
       reauthLimit := ← optNatField o "reauthLimit" base.reauthLimit
+      giveupOs := ← natListField o "giveupOs" base.giveupOs
       downTruncate := ← boolField o "downTruncate" base.downTruncate
       upUnlink := ← boolField o "upUnlink" base.upUnlink
       upCatchAll := ← boolField o "upCatchAll" base.upCatchAll
       downCatchAll := ← boolField o "downCatchAll" base.downCatchAll }
 
 def errStr : Err → String
-  | .os => "os"
+  | .os _ => "os"
   | .transport => "transport"
   | .status c _ => s!"status:{c}"
   | .auth => "auth"
+
+/-- errno class of the OSError a call ended with (`null`: the call did not end with an OSError) -/
+def outcomeErrno : Outcome → Json
+  | .error (.os k) => Json.num k
+  | _ => Json.null
 
 def outcomeStr : Outcome → String
   | .ok => "ok"
@@ -80,7 +101,8 @@ def cfgJson (c : Cfg) : Json := Json.mkObj [
   ("hookAuthStatus", optNat c.hookAuthStatus), ("plainRetryStatus", optNat c.plainRetryStatus),
   ("handlerRaisesAuth", Json.bool c.handlerRaisesAuth), ("handlerSleepsRetryAfter", Json.bool c.handlerSleepsRetryAfter),
   ("upRequiresAuth", Json.bool c.upRequiresAuth), ("downRequiresAuth", Json.bool c.downRequiresAuth),
-  ("reauthOnAuthRequired", Json.bool c.reauthOnAuthRequired), ("reauthLimit", optNat c.reauthLimit), ("budget", jnat c.budget)]
+  ("reauthOnAuthRequired", Json.bool c.reauthOnAuthRequired), ("reauthLimit", optNat c.reauthLimit), ("budget", jnat c.budget),
+  ("giveupOs", natArr c.giveupOs), ("osUniverse", natArr Gen.retryOsUniverse), ("giveupOsExact", Json.bool Gen.retryLocalGiveupExact)]
 
 /-- requests `retry.*` (see DESIGN.md Appendix A) -/
 def handleRetry (op : String) (j : Json) : Except String Json := do
@@ -107,7 +129,8 @@ def handleRetry (op : String) (j : Json) : Except String Json := do
       let r := runUp b cfg c fuel plan data pos0 declared old
       pure (Json.mkObj [("outcome", Json.str (outcomeStr r.outcome)), ("attempts", jnat r.attempts), ("sleeps", jnat r.sleeps),
         ("reauths", jnat r.reauths), ("received", natArr r.received), ("visible", optBytes r.final.visible),
-        ("history", Json.arr (r.history.map optBytes).toArray), ("pos", jnat r.final.src.pos), ("temps", jnat r.final.temps)])
+        ("history", Json.arr (r.history.map optBytes).toArray), ("pos", jnat r.final.src.pos), ("temps", jnat r.final.temps),
+        ("oserrno", outcomeErrno r.outcome)])
     | "down" =>
       let sink0 := (getBytes j "sink").toOption.getD []
       let spos0 := (getNat j "spos").toOption.getD 0
@@ -115,7 +138,7 @@ def handleRetry (op : String) (j : Json) : Except String Json := do
       let r := runDown b cfg c fuel plan data sink0 spos0 file
       pure (Json.mkObj [("outcome", Json.str (outcomeStr r.outcome)), ("attempts", jnat r.attempts), ("sleeps", jnat r.sleeps),
         ("reauths", jnat r.reauths), ("received", natArr r.received), ("sink", Json.str (hex r.final.buf)),
-        ("pos", jnat r.final.pos)])
+        ("pos", jnat r.final.pos), ("oserrno", outcomeErrno r.outcome)])
     | _ => throw s!"unknown direction {dir}"
   | _ => throw s!"unknown op {op}"
 
